@@ -144,6 +144,13 @@ def install(m, endo=None):
     C[PT + 'Add'] = lambda m, a: put(a[0], get(a[1]) + get(a[2]))
     C[PT + 'Double'] = lambda m, a: put(a[0], get(a[1]).scale(2))
 
+    def c_assert_valid(m, a):
+        # variadic validity assertion: panics for a zero-value Point, reads nothing else (the flag has no other image in this layer)
+        for p in m.slice_elems(a[0]):
+            get(p)
+        return None
+    C[ROOT + 'assertPointsValid'] = c_assert_valid
+
     def c_condneg(m, a):
         p = get(a[1])
         c = tm.eq(a[2], 0, 64)
